@@ -94,6 +94,8 @@ OPTIONS_AFFECTING_CACHE: Final = (
         "many_errors_threshold",
         "custom_typing_module",
         "test_env",
+        "reveal_verbose_types",
+        "pos_only_special_methods",
     }
 ) - {"debug_cache"}
 
